@@ -79,7 +79,7 @@ func dEntries(c *Ctx) []*ssa.Function {
 		}
 		// bridges: calls something that takes or returns a 64-bit geometry type, or another D entry
 		bridges := false
-		for _, ci := range calls(f) {
+		for _, ci := range callsDeep(c, f, 0) {
 			sc := ci.Common().StaticCallee()
 			if sc == nil || !c.inRepo(sc) {
 				continue
@@ -134,6 +134,20 @@ func dEntries(c *Ctx) []*ssa.Function {
 		}
 	}
 	sort.Slice(out, func(i, j int) bool { return c.fname(out[i]) < c.fname(out[j]) })
+	return out
+}
+
+// callsDeep: the calls of f, with calls to fresh helpers (code the change under analysis extracted from f, see
+// rename.go) replaced by the helper's own calls.
+func callsDeep(c *Ctx, f *ssa.Function, depth int) []ssa.CallInstruction {
+	var out []ssa.CallInstruction
+	for _, ci := range calls(f) {
+		if sc := ci.Common().StaticCallee(); sc != nil && depth < 2 && c.freshHelper(sc) {
+			out = append(out, callsDeep(c, sc, depth+1)...)
+			continue
+		}
+		out = append(out, ci)
+	}
 	return out
 }
 
@@ -361,6 +375,27 @@ func ruleScale(rule string) func(*Ctx) {
 			entrySet[c.fname(e)] = true
 		}
 		c.floor(rule+".entries", len(entries), 22)
+		// fresh helpers (code extracted from entry points by the change under analysis) that take or return D geometry
+		// carry the entry's obligations: they are analysed as entries, and handing them a D value is not a leak
+		for i := 0; i < len(entries); i++ {
+			for _, ci := range calls(entries[i]) {
+				h := ci.Common().StaticCallee()
+				if h == nil || !c.freshHelper(h) || entrySet[c.fname(h)] {
+					continue
+				}
+				hasD := false
+				for k := 0; k < h.Signature.Params().Len(); k++ {
+					hasD = hasD || isDType(h.Signature.Params().At(k).Type())
+				}
+				for k := 0; k < h.Signature.Results().Len(); k++ {
+					hasD = hasD || isDType(h.Signature.Results().At(k).Type())
+				}
+				if hasD {
+					entries = append(entries, h)
+					entrySet[c.fname(h)] = true
+				}
+			}
+		}
 		var names []string
 		for _, e := range entries {
 			names = append(names, c.fname(e))
@@ -1033,12 +1068,31 @@ func ruleScaleSame(c *Ctx, rule string) {
 	}
 }
 
-func skeleton(c *Ctx, f *ssa.Function) []string {
+func skeleton(c *Ctx, f *ssa.Function) []string { return skeletonWith(c, f, nil, 0) }
+
+// skeletonWith: bind gives the constants a delegating caller passes for f's parameters (a fresh helper is expanded
+// in place with the constants of its call site).
+func skeletonWith(c *Ctx, f *ssa.Function, bind map[*ssa.Parameter]string, depth int) []string {
 	var cs []ssa.CallInstruction
 	cs = append(cs, calls(f)...)
 	sort.SliceStable(cs, func(i, j int) bool { return cs[i].Pos() < cs[j].Pos() })
 	var out []string
 	for _, ci := range cs {
+		if sc := ci.Common().StaticCallee(); sc != nil && depth < 2 && c.freshHelper(sc) {
+			b2 := map[*ssa.Parameter]string{}
+			for i, a := range ci.Common().Args {
+				if i >= len(sc.Params) {
+					break
+				}
+				if k, ok := a.(*ssa.Const); ok && !k.IsNil() && k.Value != nil {
+					b2[sc.Params[i]] = k.Value.String()
+				} else if p, ok := a.(*ssa.Parameter); ok && bind[p] != "" {
+					b2[sc.Params[i]] = bind[p]
+				}
+			}
+			out = append(out, skeletonWith(c, sc, b2, depth+1)...)
+			continue
+		}
 		name := calleeName(c, ci)
 		if name == "" || strings.HasPrefix(name, "builtin.") || scaleInFns[name] || scaleOutFns[name] || name == "checkPrecision" || name == "math.Pow" ||
 			strings.HasSuffix(name, ".SetScale") {
@@ -1062,6 +1116,8 @@ func skeleton(c *Ctx, f *ssa.Function) []string {
 		for _, a := range args {
 			if k, ok := a.(*ssa.Const); ok && !k.IsNil() && k.Value != nil {
 				as = append(as, k.Value.String())
+			} else if p, ok := a.(*ssa.Parameter); ok && bind[p] != "" {
+				as = append(as, bind[p])
 			} else {
 				as = append(as, "_")
 			}
